@@ -344,6 +344,7 @@ func main() {
 	run("c01", func() { genC01(repo, out) })   // property C01 (c01.go)
 	run("c05", func() { genC05(repo, out) })   // property C05 (c05.go)
 	run("c10r", func() { genC10R(repo, out) }) // property C10, recovery slice: one pass of the metrics WAL timer loops (c10r.go)
+	run("c14", func() { genC14(repo, out) }) // property C14: pause points in metricsmeta.go for the replay of pass-vs-rotation schedules (c14.go)
 	// property C07: crash-point injection into the segment writer (crash.go)
 	crashOK := run("crash", func() { genCrash(repo, out) })
 	// property C11: pause points before the rotation steps (c11.go). MUST run after genCrash: it instruments the
